@@ -23,6 +23,7 @@ import (
 	"storj.io/drpc"
 	"storj.io/drpc/drpcconn"
 	"storj.io/drpc/drpcmanager"
+	"storj.io/drpc/drpcpool"
 	"storj.io/drpc/drpcserver"
 	"storj.io/drpc/drpcstream"
 
@@ -793,6 +794,129 @@ func closeWithQueuedOps(id string, seed uint64) runner.Result {
 	return res
 }
 
+// pooledClose: real connections behind a drpcpool handle. A stream is opened through the handle (which
+// dials), the handle is closed while the stream is still active or right after it ended, the stream
+// ends, and finally the pool is closed. Everything the handle dialed must be released: each transport
+// closed exactly once, every ServeOne returned, no goroutine of the library left.
+func pooledClose(id string, seed uint64) runner.Result {
+	base := census.IDs(census.Snapshot())
+	r := &payload.SplitMix{S: seed}
+	opts := drpcmanager.Options{SoftCancel: r.Intn(2) == 0}
+	popts := drpcpool.Options{Capacity: payload.Pick(r, []int{0, 1, 2}), KeyCapacity: payload.Pick(r, []int{0, 1})}
+	pool := drpcpool.New[string, drpcpool.Conn](popts)
+	handler := rig.HandlerFunc(func(stream drpc.Stream, rpc string) error {
+		var m []byte
+		for stream.MsgRecv(&m, payload.Enc{}) == nil {
+		}
+		return nil
+	})
+	srv := drpcserver.NewWithOptions(handler, drpcserver.Options{Manager: opts})
+	type dialed struct {
+		pair  *simnet.Pair
+		conn  *drpcconn.Conn
+		serve *rig.Op
+	}
+	var mu sync.Mutex
+	var all []*dialed
+	ctx, cancelServe := context.WithCancel(context.Background())
+	defer cancelServe()
+	dial := func(context.Context, string) (drpcpool.Conn, error) {
+		pair := simnet.New(simnet.Opts{Cap: -1})
+		d := &dialed{pair: pair, conn: drpcconn.NewWithOptions(pair.A, drpcconn.Options{Manager: opts})}
+		d.serve = rig.Go("serve", func() (interface{}, error) { return nil, srv.ServeOne(ctx, pair.B) })
+		mu.Lock()
+		all = append(all, d)
+		mu.Unlock()
+		return d.conn, nil
+	}
+	nh := 1 + r.Intn(2)
+	var hist []string
+	var streams []drpc.Stream
+	var handles []drpcpool.Conn
+	for i := 0; i < nh; i++ {
+		h := pool.Get(context.Background(), "k", dial)
+		handles = append(handles, h)
+		for k := 0; k < 1+r.Intn(2); k++ {
+			if r.Intn(3) == 0 {
+				in := payload.Make(1, 0, 0, 0, 5)
+				var out []byte
+				_ = h.Invoke(context.Background(), "/x", payload.Enc{}, &in, &out)
+				hist = append(hist, fmt.Sprintf("h%d.Invoke", i))
+				continue
+			}
+			st, err := h.NewStream(context.Background(), "/x", payload.Enc{})
+			if err != nil {
+				return runner.Inconcl(id, "NewStream through the pool failed: "+err.Error())
+			}
+			in := payload.Make(1, 0, 0, 0, 5)
+			st.MsgSend(&in, payload.Enc{})
+			streams = append(streams, st)
+			hist = append(hist, fmt.Sprintf("h%d.NewStream", i))
+		}
+	}
+	census.Quiesce(rig.Watchdog)
+	// the remaining steps in a seeded order: close every handle, end every stream
+	type step struct {
+		what string
+		run  func()
+	}
+	var steps []step
+	for i, h := range handles {
+		i, h := i, h
+		steps = append(steps, step{fmt.Sprintf("h%d.Close", i), func() { h.Close() }})
+	}
+	for i, st := range streams {
+		i, st := i, st
+		steps = append(steps, step{fmt.Sprintf("stream%d.Close", i), func() { st.Close() }})
+	}
+	for i := len(steps) - 1; i > 0; i-- {
+		j := r.Intn(i + 1)
+		steps[i], steps[j] = steps[j], steps[i]
+	}
+	for _, s := range steps {
+		s.run()
+		hist = append(hist, s.what)
+		if r.Intn(2) == 0 {
+			census.Quiesce(rig.Watchdog)
+		}
+	}
+	census.Quiesce(rig.Watchdog)
+	pool.Close()
+	hist = append(hist, "pool.Close")
+	_, snap := census.Quiesce(rig.Watchdog)
+	desc := fmt.Sprintf("pooled connections cap=%d keycap=%d soft=%v: %s", popts.Capacity, popts.KeyCapacity, opts.SoftCancel, strings.Join(hist, " "))
+	var fails []string
+	mu.Lock()
+	for i, d := range all {
+		if n := d.pair.A.CloseCount(); n != 1 {
+			fails = append(fails, fmt.Sprintf("the transport of dialed connection #%d was closed %d times after every handle, every stream and the pool were closed (connection reports closed: %v)", i+1, n, rig.IsClosed(d.conn.Closed())))
+		} else if !d.serve.Returned() {
+			fails = append(fails, fmt.Sprintf("the server is still serving dialed connection #%d", i+1))
+		}
+	}
+	ndial := len(all)
+	mu.Unlock()
+	if len(fails) == 0 {
+		if left := census.NewSince(census.InDRPC(snap), base); len(left) > 0 {
+			fails = append(fails, "library goroutines left behind:\n"+census.Dump(left))
+		}
+	}
+	cancelServe()
+	mu.Lock()
+	for _, d := range all {
+		d.pair.A.Close()
+		d.pair.B.Close()
+	}
+	mu.Unlock()
+	census.Quiesce(rig.Watchdog)
+	if len(fails) > 0 {
+		return runner.Violation(id, "close:pooled:"+keyOf(fails[0]), desc+"\n"+strings.Join(fails, "\n"))
+	}
+	res := runner.Hold(id, desc, ndial > 0)
+	res.Events = int64(len(hist))
+	return res
+}
+
 // earlyData: the peer has already sent packets for the stream id the client is about to use when
 // the client creates the stream; the connection is closed while the new stream has been published to
 // the reader but not yet handed to the stream manager.
@@ -912,6 +1036,11 @@ func gen(tier string, seed uint64) []runner.Scenario {
 		i := i
 		id := fmt.Sprintf("stalled-peer-serve-cancel/%d", i)
 		out = append(out, runner.Scenario{ID: id, Run: func() runner.Result { return stalledPeerServeCancel(id, payload.Hash(seed, 0xC124, uint64(i))) }})
+	}
+	for i := 0; i < ne; i++ {
+		i := i
+		id := fmt.Sprintf("pooled-close/%d", i)
+		out = append(out, runner.Scenario{ID: id, Run: func() runner.Result { return pooledClose(id, payload.Hash(seed, 0xC126, uint64(i))) }})
 	}
 	for i := 0; i < ne; i++ {
 		i := i
